@@ -1,8 +1,12 @@
-// machobig replays finding F-MACHO-3 on the real code: a thin Mach-O whose code is larger than
-// (10e6-16384)*4096/(20+hashSize) bytes (786 MB for SHA-256) is signed by machos.Sign into an image whose
-// LC_CODE_SIGNATURE names a region of more than 10e6 bytes, which machos.Verify (readSigBlob) refuses as
-// "unreasonably large".  Usage: machobig [textMB]   (default 800; needs about 3x that much memory, a few seconds)
-// With a size below the threshold (e.g. 700) the same image verifies.
+// machobig replays finding F-MACHO-3 (fixed in /repo 5805b39) on the real code: a thin Mach-O whose code is larger than
+// (10e6-16384)*4096/(20+hashSize) bytes (786 MB for SHA-256) needs a signature region of more than 10e6 bytes, which
+// machos.Verify (readSigBlob) refuses as "unreasonably large".  Before the fix machos.Sign signed such an image (exit 0) into
+// a file relic's own verifier rejected; since the fix machos.Sign refuses ("image too large: ...", exit status 2 here).
+// Usage: machobig [textMB]   (default 800; needs about 3x that much memory, a few seconds)
+//        With a size below the threshold (e.g. 700) the image is signed and verifies.
+//        machobig reuse [regionBytes]   (default 10000008) what the fix leaves open (Lean: Regular.oldSmall,
+//        Relic.Props.C01.macho_reused_oversize_region_refused): a small image that ALREADY carries a signature region of more
+//        than 10e6 bytes, at least as large as the estimate: the region is reused without a size test, sign: ok, verify: error.
 package main
 
 import (
@@ -25,11 +29,21 @@ import (
 
 func main() {
 	mb := 800
-	if len(os.Args) > 1 {
-		mb, _ = strconv.Atoi(os.Args[1])
+	var f []byte
+	if len(os.Args) > 1 && os.Args[1] == "reuse" {
+		region := 10000008
+		if len(os.Args) > 2 {
+			region, _ = strconv.Atoi(os.Args[2])
+		}
+		p := macho.Params{Is64: true, TextSize: 8192, Slack: 64, LinkEdit: 4096, Sections: 1, OldSig: region}
+		f = macho.Build(hx.NewRng(1), p, []byte{0xfa, 0xde, 0x0c, 0xc0, 0, 0, 0, 12, 0, 0, 0, 0})
+	} else {
+		if len(os.Args) > 1 {
+			mb, _ = strconv.Atoi(os.Args[1])
+		}
+		p := macho.Params{Is64: true, TextSize: mb << 20, Slack: 64, LinkEdit: 4096, Sections: 1}
+		f = macho.Build(hx.NewRng(1), p, nil)
 	}
-	p := macho.Params{Is64: true, TextSize: mb << 20, Slack: 64, LinkEdit: 4096, Sections: 1}
-	f := macho.Build(hx.NewRng(1), p, nil)
 	fmt.Printf("image: %d bytes\n", len(f))
 	params := &csblob.SignatureParams{HashFunc: crypto.SHA256, SigningIdentity: "com.example.verif", Flags: 0x10000}
 	patch, _, err := machos.Sign(context.Background(), bytes.NewReader(f), sg.Cert("p256"), params)
